@@ -26,12 +26,41 @@ var c10Extra = []string{
 	"find all at least 0 @/a*/", "find all @/(a*)*/", "find all @/(a*)+b/", "find all @/(a|b*)*c/", "find all @/(^)*a/", "find all @/($)+/",
 }
 
-func VerifC10Count() int { return len(c10Nullable)*len(c10Wrappers) + len(c10Extra) }
+// guarded recursion: a subroutine that consumes one atom and then may call itself. Every kind of atom
+// (literal, class, negated class, list, negated list, caseless, any) in front of every form of the
+// recursive call; the property promises termination because the atom consumes a byte or fails.
+var c10Atoms = []string{"'a'", "any", "digit", "letter", "not digit", "not letter", "not upper", "not lower", "not whitespace", "not 'a'", "not in 'a'", "in 'a', 'b'", "caseless 'a'", "not in 'a' to 'c'", "whitespace"}
+var c10Recursions = []string{"{% maybe s} = s", "{% (s or 'b')} = s", "{% maybe s fewest} = s 'Z'", "{% at most 1 s} = s", "{(% or 'q') maybe s} = s 'z'"}
+
+var c10ExtraBuilt = false
+
+func c10AllExtra() []string {
+	if c10ExtraBuilt {
+		return c10Extra
+	}
+	c10ExtraBuilt = true
+	for _, r := range c10Recursions {
+		for _, a := range c10Atoms {
+			s := "find all "
+			for j := 0; j < len(r); j++ {
+				if r[j] == '%' {
+					s += a
+				} else {
+					s += string(r[j])
+				}
+			}
+			c10Extra = append(c10Extra, s)
+		}
+	}
+	return c10Extra
+}
+
+func VerifC10Count() int { return len(c10Nullable)*len(c10Wrappers) + len(c10AllExtra()) }
 
 func c10Source(i int) string {
 	n := len(c10Nullable) * len(c10Wrappers)
 	if i >= n {
-		return c10Extra[i-n]
+		return c10AllExtra()[i-n]
 	}
 	w := c10Wrappers[i/len(c10Nullable)]
 	b := c10Nullable[i%len(c10Nullable)]
